@@ -36,8 +36,16 @@ var errX = errors.New("verif: injected source error")
 var errAfter = errors.New("verif: a different error returned by a source that was read again after it had failed")
 
 // the last one is a source error that merely WRAPS a thrift protocol exception (it is not one itself)
-var termErrs = []error{io.EOF, io.ErrUnexpectedEOF, errX, fmt.Errorf("ctx: %w", errX), fmt.Errorf("conn reset while relaying: %w", thrift.NewProtocolException(thrift.INVALID_DATA, "upstream said so"))}
-var termErrNames = []string{"io.EOF", "io.ErrUnexpectedEOF", "errX", "wrapped(errX)", "wraps-a-protocol-exception"}
+// typedErr is a lower layer's error that carries its own Thrift type id (as transport exceptions of RPC frameworks do)
+// and wraps the real cause.
+type typedErr struct{ cause error }
+
+func (e *typedErr) Error() string { return "transport: not open: " + e.cause.Error() }
+func (e *typedErr) TypeId() int32 { return 1 }
+func (e *typedErr) Unwrap() error { return e.cause }
+
+var termErrs = []error{io.EOF, io.ErrUnexpectedEOF, errX, fmt.Errorf("ctx: %w", errX), fmt.Errorf("conn reset while relaying: %w", thrift.NewProtocolException(thrift.INVALID_DATA, "upstream said so")), &typedErr{cause: errX}}
+var termErrNames = []string{"io.EOF", "io.ErrUnexpectedEOF", "errX", "wrapped(errX)", "wraps-a-protocol-exception", "typed-error-wrapping(errX)"}
 
 // ---- EnvReader: harness-owned io.Reader (fault and fragmentation model, DESIGN 4.3) ----
 
